@@ -484,6 +484,10 @@ example : (0x7FF0000000000000 : Nat) % 2 ^ 63 / 2 ^ 52 = 2047 ∧
     widenF32 0x7FC00000 = 0x7FF8000000000000 ∧ widenF32 0x00000001 = 0x36A0000000000000 := by
   decide +kernel
 
+/-- the signalling-NaN exclusion of `float_roundtrip` is sharp: `7F800001` comes back quieted -/
+example : ¬ ((0x7F800001 : Nat) % 2 ^ 23 = 0 ∨ 2 ^ 22 ≤ (0x7F800001 : Nat) % 2 ^ 23) ∧
+    castF32 (widenF32 0x7F800001) = 0x7FC00001 := by decide +kernel
+
 /-! ## refutations: models of CHANGED code violate the theorems above
 
 Each change below passes every theorem of `Props/C02.lean` (audit rank 21). -/
